@@ -5,6 +5,7 @@
   text, `is_invalid_chunk` looks at all of it, and the clause holds – for every size, lazy path included.
 -/
 import CharsetProof.Props.C13g
+import CharsetProof.Lemmas.CharsLeNow
 set_option linter.unusedSectionVars false
 namespace Charset
 variable {E L : Type} [DecidableEq E]
@@ -80,7 +81,7 @@ theorem validChunk_ascii {T : Tables E} {t : Text} (h : validChunk T T.ascii t =
     the recorded finding (non-ASCII bytes outside the sampled chunks). -/
 theorem C01_ascii_fit_partial {W : World E L} {T : Tables E} {sort : Sorter E L}
     (hperm : ∀ l, (sort l).Perm l) (hmb : ∀ em ∈ T.marks, T.isMultiByte em.1 = true) (laws : LazyLaws W T)
-    (hchars : ∀ e x t, W.decode e x = .ok (some t) → t.length ≤ x.length)
+    (hchars : ∀ e x t, e ∈ T.supported → W.decode e x = .ok (some t) → t.length ≤ x.length)
     (hsb : T.isMultiByte T.ascii = false)
     (hascii : ∀ x t, W.decode T.ascii x = .ok (some t) → isAsciiText t = true → x.all (· < 128) = true)
     {b : Bytes} {s : Settings} {incl excl : List E}
@@ -117,6 +118,12 @@ theorem C01_ascii_fit_partial {W : World E L} {T : Tables E} {sort : Sorter E L}
       subst hm
       exact ((Match.allEntries_iff.mp hfb) c hc).chunks
   obtain ⟨p, acc, hp2, hp4, hp5, hp6, hp8⟩ := hchunks
+  have hsup : c.enc ∈ T.supported := by
+    rcases fromBytes_facts hperm hincl hexcl hb h with hall | ⟨fb, rfl, hfb, _⟩
+    · exact ((Match.allEntries_iff.mp (hall m hm)) c hc).supported
+    · simp only [List.mem_singleton] at hm
+      subst hm
+      exact ((Match.allEntries_iff.mp hfb) c hc).supported
   have hvalid : validChunk T c.enc t = some t ∨ t = [] := by
     by_cases hte : t = []
     · exact Or.inr hte
@@ -125,7 +132,7 @@ theorem C01_ascii_fit_partial {W : World E L} {T : Tables E} {sort : Sorter E L}
       | false =>
         have hpay : p.payload = some t := by rw [hp4 hl, htext]
         have hlen : t.length ≤ (ctxOf T b s).chunk := by
-          rw [hctx.2]; exact hchars _ _ _ hdect
+          rw [hctx.2]; exact hchars _ _ _ hsup hdect
         exact probeChunks_fit_valid hctx.1 hpay hlen hte hp6 hp8
       | true =>
         have hbom : p.bomHere = false := by rw [hp2, hnb]
@@ -211,14 +218,13 @@ theorem asciiLaw_now (o : Oracle) : ∀ x t, (worldNow o).decode tablesNow.ascii
 
 /-- **C01 ascii clause for the current tree, inputs that fit the window** -/
 theorem C01_ascii_fit_current (o : Oracle)
-    (hchars : ∀ e x t, (worldNow o).decode e x = .ok (some t) → t.length ≤ x.length)
     {b : Bytes} {s : Settings} {incl excl : List Name}
     (hincl : canonList ianaNow s.incl = .ok incl) (hexcl : canonList ianaNow s.excl = .ok excl)
     (hfit : Fits b s)
     {ms : List (Match Name Name)} (hb : b ≠ [])
     (h : fromBytes (worldNow o) tablesNow sortMatches b s = .ok (.ok ms)) :
     ∀ m ∈ ms, ∀ c ∈ m.entries, c.enc = tablesNow.ascii → b.all (· < 128) = true :=
-  C01_ascii_fit_partial sortMatches_perm marksMultiByte_now (lazyLaws_now o) hchars (by decide +kernel) (asciiLaw_now o)
+  C01_ascii_fit_partial sortMatches_perm marksMultiByte_now (lazyLaws_now o) (hchars_now o) (by decide +kernel) (asciiLaw_now o)
     hincl hexcl hfit hb h
 
 end Charset
